@@ -1,9 +1,139 @@
-"""Counterexample replay against the real code (native g++ -fsanitize=address,undefined build)."""
-import os, re, json, subprocess
+"""Counterexample replay against the real code.
+
+For the blob decoders and zlib_uncompress (C05): the failed obligation is re-run on the replay variant of the harness
+(inputs in named static arrays <= 96 bytes, loops unwound, no loop contracts), the input bytes are read off cbmc's
+trace, and the REAL function of the /repo working tree (g++ -fsanitize=address,undefined, the real .cpp #included)
+is run on them under a 10 s watchdog.  A sanitizer report, a signal, a hang or a non-std exception = reproduced.
+"""
+import os, re, json, subprocess, tempfile, shutil
+from . import cbmcdrv
+from .cbmcdrv import Undecided
+
+REPO = os.environ.get('VERIF_REPO', '/repo')
+
+# public decoder -> (C++ call on `blob`, payload is zlib-compressed?, translation units to #include)
+E = 'src/djinterop/engine/'
+DECODERS = {
+    'djinterop::engine::v2::beat_data_blob::from_blob': ('djinterop::engine::v2::beat_data_blob::from_blob(blob)', True, [E + 'v2/beat_data_blob.cpp']),
+    'djinterop::engine::v2::quick_cues_blob::from_blob': ('djinterop::engine::v2::quick_cues_blob::from_blob(blob)', True, [E + 'v2/quick_cues_blob.cpp']),
+    'djinterop::engine::v2::loops_blob::from_blob': ('djinterop::engine::v2::loops_blob::from_blob(blob)', False, [E + 'v2/loops_blob.cpp']),
+    'djinterop::engine::v2::overview_waveform_data_blob::from_blob': ('djinterop::engine::v2::overview_waveform_data_blob::from_blob(blob)', True, [E + 'v2/overview_waveform_data_blob.cpp']),
+    'djinterop::engine::v2::track_data_blob::from_blob': ('djinterop::engine::v2::track_data_blob::from_blob(blob)', True, [E + 'v2/track_data_blob.cpp']),
+    'djinterop::engine::v1::beat_data::decode': ('djinterop::engine::v1::beat_data::decode(blob)', True, [E + 'v1/performance_data_format.cpp']),
+    'djinterop::engine::v1::high_res_waveform_data::decode': ('djinterop::engine::v1::high_res_waveform_data::decode(blob)', True, [E + 'v1/performance_data_format.cpp']),
+    'djinterop::engine::v1::loops_data::decode': ('djinterop::engine::v1::loops_data::decode(blob)', False, [E + 'v1/performance_data_format.cpp']),
+    'djinterop::engine::v1::overview_waveform_data::decode': ('djinterop::engine::v1::overview_waveform_data::decode(blob)', True, [E + 'v1/performance_data_format.cpp']),
+    'djinterop::engine::v1::quick_cues_data::decode': ('djinterop::engine::v1::quick_cues_data::decode(blob)', True, [E + 'v1/performance_data_format.cpp']),
+    'djinterop::engine::v1::track_data::decode': ('djinterop::engine::v1::track_data::decode(blob)', True, [E + 'v1/performance_data_format.cpp']),
+    'djinterop::engine::zlib_uncompress': ('djinterop::engine::zlib_uncompress(blob)', None, []),
+}
+# helpers are replayed through the public decoder that reaches them
+VIA = {
+    'djinterop::engine::v2::(anonymous namespace)::decode_beatgrid': 'djinterop::engine::v2::beat_data_blob::from_blob',
+    'djinterop::engine::v1::(anonymous namespace)::decode_beatgrid': 'djinterop::engine::v1::beat_data::decode',
+}
+
+
+def trace_inputs(trace_text):
+    """last value assigned to every verif_in[i] / verif_payload[i] and to the two lengths"""
+    out = {'verif_in': {}, 'verif_payload': {}, 'verif_in_len': None, 'verif_payload_len': None}
+    for m in re.finditer(r'^\s*(verif_in|verif_payload)=\{([^}]*)\}', trace_text, re.M):
+        vals = [int(x) for x in re.findall(r'-?\d+', m.group(2))]
+        out[m.group(1)] = {i: v & 0xFF for i, v in enumerate(vals)}
+    for m in re.finditer(r'^\s*(verif_in|verif_payload)\[(\d+)l?\]=(\d+)', trace_text, re.M):
+        out[m.group(1)][int(m.group(2))] = int(m.group(3))
+    for m in re.finditer(r'^\s*(verif_in_len|verif_payload_len)=(\d+)', trace_text, re.M):
+        out[m.group(1)] = int(m.group(2))
+    res = {}
+    for k in ('verif_in', 'verif_payload'):
+        n = out[k + '_len']
+        if n is not None and n < (1 << 20):
+            res[k] = [out[k].get(i, 0) for i in range(n)]
+    return res
+
+
+def native_run(call, compressed, tus, payload, outdir, tag):
+    src = os.path.join(outdir, 'replay_%s.cpp' % tag)
+    exe = os.path.join(outdir, 'replay_%s' % tag)
+    inc = ['#include "%s/%s"' % (REPO, t) for t in tus] + ['#include "%s/src/djinterop/engine/encode_decode_utils.cpp"' % REPO]
+    code = '\n'.join(inc) + '''
+#include <cstdio>
+#include <cstdlib>
+#include <csignal>
+#include <unistd.h>
+#include <zlib.h>
+static const unsigned char bytes[] = {%s};
+int main() {
+  std::vector<std::byte> payload(sizeof(bytes) - 1);
+  for (size_t i = 0; i + 1 < sizeof(bytes); ++i) payload[i] = static_cast<std::byte>(bytes[i]);
+  std::vector<std::byte> blob;
+  if (%d) {   // 4-byte big-endian length + zlib stream, built with zlib itself (not with the code under test)
+    uLongf n = compressBound(payload.size());
+    std::vector<unsigned char> z(n);
+    compress2(z.data(), &n, reinterpret_cast<const Bytef*>(payload.data()), payload.size(), 6);
+    uint32_t len = static_cast<uint32_t>(payload.size());
+    blob.push_back(std::byte(len >> 24)); blob.push_back(std::byte(len >> 16)); blob.push_back(std::byte(len >> 8)); blob.push_back(std::byte(len));
+    for (uLongf i = 0; i < n; ++i) blob.push_back(std::byte(z[i]));
+  } else blob = payload;
+  alarm(10);
+  try { (void)%s; std::puts("REPLAY: returned"); }
+  catch (const std::exception& e) { std::printf("REPLAY: std::exception %%s\\n", e.what()); }
+  catch (...) { std::puts("REPLAY: NON-STD EXCEPTION"); return 3; }
+  return 0;
+}
+''' % (', '.join(str(b) for b in payload) + (', ' if payload else '') + '0', 1 if compressed else 0, call)
+    open(src, 'w').write(code)
+    gen = cbmcdrv.gen_dir(REPO, outdir)
+    cmd = ['g++', '-std=c++17', '-O1', '-g', '-fsanitize=address,undefined', '-fno-sanitize-recover=undefined', '-fsanitize=float-cast-overflow',
+           '-I%s/include' % REPO, '-I' + gen, '-I%s/src' % REPO, '-I%s/ext/sqlite_modern_cpp' % REPO, '-I%s/ext/date' % REPO, src, '-lz', '-o', exe]
+    p = subprocess.run(cmd, stdout=subprocess.PIPE, stderr=subprocess.PIPE, text=True)
+    if p.returncode != 0:
+        raise Undecided('native replay harness does not compile: %s' % p.stderr[-800:])
+    try:
+        r = subprocess.run([exe], stdout=subprocess.PIPE, stderr=subprocess.PIPE, text=True, timeout=15)
+        rc, so, se = r.returncode, r.stdout, r.stderr
+    except subprocess.TimeoutExpired as e:
+        rc, so, se = 'timeout', '', 'watchdog: no return within 15 s'
+    bad = rc != 0 or 'ERROR: AddressSanitizer' in se or 'runtime error:' in se
+    return {'rc': rc, 'stdout': so[-400:], 'stderr': se[-1500:], 'reproduced': bool(bad), 'harness': src}
+
 
 def replayer_for(pid):
-    return None
+    if pid != 'C05':
+        return None
+    return replay_decoder
+
+
+def replay_decoder(pid, P, specs, r, failed, outdir):
+    key = r.key.split('@')[0]
+    top_key = VIA.get(key, key)
+    if top_key not in DECODERS or not r.info.get('path'):
+        return None
+    call, compressed, tus = DECODERS[top_key]
+    # counterexample on the replay variant of the (public) decoder's harness, for the failed obligations
+    info = r.info if top_key == key else cbmcdrv.build_check(P, specs, top_key, outdir)
+    names = [o['name'] for o in failed if o['class'] not in ('loop_invariant_base', 'loop_invariant_step', 'loop_assigns', 'loop_decreases')]
+    res = cbmcdrv.run_cbmc(info, timeout=300, defs=('VERIF_CBMC', 'VERIF_ABSTRACT', 'VERIF_REPLAY', 'VERIF_MAXBUF=96UL'), unwind=10, unwind_assert=False,
+                           tag='.replay', trace_props=names if top_key == key else [], extra=(['--trace'] if top_key != key else []))
+    ins = trace_inputs(res.get('trace_text', ''))
+    payload = ins.get('verif_payload') if compressed else ins.get('verif_in')
+    if compressed is None:
+        payload = ins.get('verif_in')
+    if payload is None:
+        return {'verdict': 'no-input', 'detail': 'cbmc gave no trace for the replay variant (the failure may need more than 96 input bytes)'}
+    nat = native_run(call, bool(compressed), tus, payload, outdir, re.sub(r'[^A-Za-z0-9]', '_', top_key)[-40:])
+    return {'verdict': 'reproduced' if nat['reproduced'] else 'not-reproduced', 'input_bytes': payload, 'input_is': 'uncompressed payload' if compressed else 'blob',
+            'native': nat, 'call': call}
+
 
 def replay_file(path):
-    print(open(path).read())
+    d = json.load(open(path))
+    print(json.dumps(d, indent=1)[:6000])
+    rp = d.get('replay') or {}
+    if rp.get('native', {}).get('harness') and os.path.exists(rp['native']['harness']):
+        exe = rp['native']['harness'][:-4]
+        if os.path.exists(exe):
+            r = subprocess.run([exe], stdout=subprocess.PIPE, stderr=subprocess.PIPE, text=True)
+            print('re-run of the native harness: rc=%s\n%s' % (r.returncode, r.stderr[-1200:]))
+            return 1 if r.returncode != 0 else 0
     return 0
